@@ -135,7 +135,7 @@ namespace Pistache::Tcp
                 return _fd;
             }
 
-            RawBuffer raw() const
+            const RawBuffer& raw() const
             {
                 if (!isRaw())
                     throw std::runtime_error("Tried to retrieve raw data of a non-buffer");
